@@ -83,6 +83,31 @@ def _make_service(fmt, mn, _t1, mx, _t2, stp, _t3, construct):
         if mx is not None:
             ch.maxValue = mx
         return svc, ch
+    if construct == "ble-signature":
+        # the way a Bluetooth accessory declares it: a characteristic signature (HAP-BLE 7.3.4.x) with Valid-Range and Step-Value descriptors in
+        # the characteristic's own wire format, decoded by the tree and copied onto the model as BlePairing._async_fetch_gatt_database does
+        import struct
+
+        from aiohomekit.controller.ble.structs import Characteristic as BleSignature
+        from vlib import refhap
+        fmt_byte, code = {"uint8": (0x04, "B"), "uint16": (0x06, "H"), "uint32": (0x08, "I"), "uint64": (0x0A, "Q"), "int": (0x10, "i"), "float": (0x14, "f")}[fmt]
+        items = [(0x04, (0xFF01).to_bytes(16, "little")), (0x05, struct.pack("<H", 9)), (0x0A, struct.pack("<H", 0x0030)), (0x0C, struct.pack("<BbHBH", fmt_byte, 0, 0x2700, 1, 0))]
+        if mn is not None and mx is not None:
+            items.append((0x0D, struct.pack("<" + code * 2, mn, mx)))
+        if stp is not None:
+            items.append((0x0E, struct.pack("<" + code, stp)))
+        decoded = BleSignature.decode(refhap.enc_struct(items)).to_dict()
+        ch = svc.add_char(CHAR_TYPE)
+        ch.perms = decoded.get("perms", [])
+        if "format" in decoded:
+            ch.format = decoded["format"]
+        if "minStep" in decoded:
+            ch.minStep = decoded["minStep"]
+        if "minValue" in decoded:
+            ch.minValue = decoded["minValue"]
+        if "maxValue" in decoded:
+            ch.maxValue = decoded["maxValue"]
+        return svc, ch
     kw = {"format": fmt, "perms": ["pr", "pw"]}
     if mn is not None:
         kw["min_value"] = mn
@@ -110,6 +135,20 @@ def run_case(case, R):
     fmt, mn, mx, stp, v = case["fmt"], case.get("min"), case.get("max"), case.get("step"), case["v"]
     via = case.get("via", "build_update")
     construct = case.get("construct", "kwargs")
+    if construct == "ble-signature":
+        # representable in the wire format only: both bounds or none, integral and in range for integer formats, float32-exact for float
+        import struct as _st
+        ok = fmt != "bool" and (mn is None) == (mx is None)
+        for x in (mn, mx, stp):
+            if x is None or not ok:
+                continue
+            if fmt == "float":
+                ok = ok and isinstance(x, (int, float)) and abs(x) < 3e38 and _st.unpack("<f", _st.pack("<f", x))[0] == x
+            else:
+                lo_, hi_ = INT_LIMITS[fmt]
+                ok = ok and isinstance(x, int) and not isinstance(x, bool) and lo_ <= x <= hi_
+        if not ok:
+            construct = "assign"
     if construct == "assign-spec" and (fmt != "float" or None in (mn, mx, stp)):
         construct = "assign"          # without a declared bound the type's own default would apply; only complete declarations are compared
     svc, ch = make_service(fmt, mn, mx, stp, construct)
@@ -285,7 +324,7 @@ def cases(draw):
         v = draw(st.one_of(st.booleans(), st.sampled_from([0, 1, 2, -1, 1.0, 0.0, "true", "false", "True", "FALSE", "on", "off", "yes", "no",
                                                            "y", "n", "t", "f", "1", "0", "2", "maybe", "", None, "1.0", b"1", float("nan")])))
         return {"fmt": fmt, "v": v, "via": via}
-    case = {"fmt": fmt, "via": via, "construct": draw(st.sampled_from(["kwargs", "kwargs", "assign", "assign-spec", "json"]))}
+    case = {"fmt": fmt, "via": via, "construct": draw(st.sampled_from(["kwargs", "kwargs", "assign", "assign-spec", "json", "ble-signature"]))}
     if fmt == "float":
         mn = draw(st.sampled_from([None, None, 0, 0.0, 1, 10, 10.0, -100, 0.5, -2**31, 7.2, -50.5, 35]))
         stp = draw(st.sampled_from([None, None, 1, 1.0, 2, 5, 10, 0.1, 0.5, 0.01, 0.25, 0.2, 2.5]))
@@ -361,6 +400,18 @@ def enum_grid(tier):
             yield {"fmt": "float", "min": mn, "max": mx, "step": stp, "v": i / 20, "via": "build_update"}
             if i % 7 == 0:
                 yield {"fmt": "float", "min": mn, "max": mx, "step": stp, "v": str(i / 20), "via": "check_convert_value"}
+    # signed ranges the way a Bluetooth accessory declares them
+    for mn, mx, stp in [(-90, 90, 1), (-40, 0, 5), (-100, -10, None), (-2**31, 2**31 - 1, None), (-2**31, -1, 7), (-1, 1, 1), (0, 100, 5)]:
+        for v in (-2**31, -101, -100, -91, -90, -89, -45, -41, -40, -38, -12, -10, -9, -1, 0, 1, 3, 89, 90, 91, 2**31 - 1, "-30", -30.0):
+            yield {"fmt": "int", "min": mn, "max": mx, "step": stp, "v": v, "via": "build_update", "construct": "ble-signature"}
+    for mn, mx, stp in [(10.0, 30.0, 0.5), (-50.5, 50.5, 0.5), (0.0, 1.0, 0.25)]:
+        for i in range(-30, 130, 3):
+            yield {"fmt": "float", "min": mn, "max": mx, "step": stp, "v": i / 4, "via": "build_update", "construct": "ble-signature"}
+    # declared limits and steps that no double represents exactly, through every way metadata reaches the model
+    for construct in ("kwargs", "assign", "json"):
+        for mn, mx, stp in [(0, 2**64 - 1, None), (0, 2**64 - 1, 1), (0, 2**53 + 1, None), (2**60 + 1, 2**64 - 1, 2), (2**53 + 1, 2**62 + 3, None), (0, 2**63 + 1, 2**53 + 1)]:
+            for v in (0, 1, 2**53, 2**53 + 1, 2**53 + 2, 2**60 + 1, 2**60 + 2, 2**60 + 3, 2**62 + 3, 2**63 + 1, 2**64 - 2, 2**64 - 1, 2**64, 2**64 + 5, 2**70):
+                yield {"fmt": "uint64", "min": mn, "max": mx, "step": stp, "v": v, "via": "build_update", "construct": construct}
     for g in GARBAGE + [None, b"12", float("nan"), float("inf"), float("-inf")]:
         for fmt in INT_FORMATS + ["float"]:
             for stp in (None, 1):
